@@ -8,6 +8,7 @@ import NgVerif.Model.CsegDecode
 import NgVerif.Model.Raw
 import NgVerif.Model.Coords
 import NgVerif.Model.Conv
+import NgVerif.Model.Down
 /-
   ngdriver: line protocol. One request per line on stdin (space-separated tokens),
   one reply per line on stdout. Unknown / malformed requests answer `bad-request`.
@@ -270,6 +271,24 @@ def handle (toks : List String) : String :=
       let w := if i.isInt && o.isInt then "input" else (if Conv.workFloat i o == .f32 then "float32" else "float64")
       s!"{w} {Conv.intSafe i o}"
     | _, _ => "bad-request"
+  | ["down", method, ty, ext, fac, outside, data] =>
+    match parseTy ty, parseList parseNat ext, parseList parseNat fac, parseList parseInt data with
+    | some t, some [ez, ey, ex], some [fz, fy, fx], some d =>
+      let e : Down.Ext := ⟨ez, ey, ex⟩
+      let f : Down.Arr3 := fun z y x => d[(z * ey + y) * ex + x]!
+      let oe := Down.outExt e fz fy fx
+      let coords := (List.range oe.z).flatMap fun z => (List.range oe.y).flatMap fun y =>
+        (List.range oe.x).map fun x => (z, y, x)
+      let o : Option Int := if outside == "none" then none else parseInt outside
+      let hdr := s!"{oe.z},{oe.y},{oe.x} "
+      if method == "stride" then
+        hdr ++ showIntList (coords.map fun (z, y, x) => Down.stride f fz fy fx z y x)
+      else if method == "majority" then
+        hdr ++ showIntList (coords.map fun (z, y, x) => Down.majority f e fz fy fx z y x)
+      else
+        hdr ++ showList (fun (r : Option Int) => match r with | some v => toString v | none => "wrap")
+          (coords.map fun (z, y, x) => Down.average t f e o fz fy fx z y x)
+    | _, _, _, _ => "bad-request"
   | _ => "bad-request"
 
 partial def loop (h : IO.FS.Stream) (out : IO.FS.Stream) : IO Unit := do
